@@ -334,6 +334,49 @@ package httpgen
 //@ func collectInt64EncodingMessages(messages []*protogen.Message, contexts *[]*Int64EncodingContext)
 //@   modifies contexts
 //@   decreases spec.depth(messages)
+// every collected context has a NUMBER-encoded field (C13: the file's strconv import is used)
+//@   ensures contexts_nonempty: (forall k int :: 0 <= k && k < len(old(*contexts)) ==> old(*contexts)[k] != nil && len(old(*contexts)[k].NumberFields) > 0) ==> (forall k int :: 0 <= k && k < len((*contexts)) ==> (*contexts)[k] != nil && len((*contexts)[k].NumberFields) > 0)
+//@   loop 1 invariant (forall k int :: 0 <= k && k < len(old(*contexts)) ==> old(*contexts)[k] != nil && len(old(*contexts)[k].NumberFields) > 0) ==> (forall k int :: 0 <= k && k < len((*contexts)) ==> (*contexts)[k] != nil && len((*contexts)[k].NumberFields) > 0)
+
+//@ func isInt64Type(field *protogen.Field) (r bool)
+//@   pure
+
+//@ func hasInt64NumberFields(message *protogen.Message) (r bool)
+//@   pure
+//@   ensures r == spec.hasInt64NumberField(message)
+//@   loop 1 invariant forall k int :: 0 <= k && k < _i1 ==> !(isInt64Type(message.Fields[k]) && annotations.IsInt64NumberEncoding(message.Fields[k]))
+
+//@ func getInt64NumberFields(message *protogen.Message) (r []*protogen.Field)
+//@   ensures nonempty: spec.hasInt64NumberField(message) ==> len(r) > 0
+//@   loop 1 invariant (exists k int :: 0 <= k && k < _i1 && isInt64Type(message.Fields[k]) && annotations.IsInt64NumberEncoding(message.Fields[k])) ==> len(fields) > 0
+
+//@ func collectInt64EncodingContext(file *protogen.File) (r []*Int64EncodingContext)
+//@   ensures contexts_nonempty: (forall k int :: 0 <= k && k < len(r) ==> r[k] != nil && len(r[k].NumberFields) > 0)
+
+//@ func (g *Generator) generateInt64FieldUnmarshal(gf *protogen.GeneratedFile, field *protogen.Field)
+//@   modifies *
+//@   ensures uses_strconv: count("P:strconv.") > old(count("P:strconv."))
+
+//@ func (g *Generator) generateInt64UnmarshalJSON(gf *protogen.GeneratedFile, ctx *Int64EncodingContext)
+//@   requires ctx != nil
+//@   modifies *
+//@   ensures uses_strconv: len(ctx.NumberFields) > 0 ==> count("P:strconv.") > old(count("P:strconv."))
+//@   ensures monotone: count("P:strconv.") >= old(count("P:strconv."))
+//@   loop 2 invariant count("P:strconv.") >= old(count("P:strconv.")) && (_i2 > 0 ==> count("P:strconv.") > old(count("P:strconv.")))
+
+//@ func (g *Generator) generateInt64MarshalJSON(gf *protogen.GeneratedFile, ctx *Int64EncodingContext)
+//@   requires ctx != nil
+//@   modifies *
+//@   ensures monotone: count("P:strconv.") >= old(count("P:strconv."))
+
+// the int64 encoding file imports strconv (writeInt64EncodingImports) only together with a line that uses it
+//@ func (g *Generator) generateInt64EncodingFile(file *protogen.File) (err error)
+//@   modifies *
+//@   at-call writeInt64EncodingImports requires once: count("writeInt64EncodingImports") == old(count("writeInt64EncodingImports"))
+//@   ensures strconv_import_used: count("writeInt64EncodingImports") > old(count("writeInt64EncodingImports")) ==> count("P:strconv.") > old(count("P:strconv."))
+//@   loop 1 invariant count("P:strconv.") >= old(count("P:strconv.")) && (_i1 > 0 ==> count("P:strconv.") > old(count("P:strconv.")))
+//@   loop 1 invariant forall k int :: 0 <= k && k < len(contexts) ==> contexts[k] != nil && len(contexts[k].NumberFields) > 0
+//@   loop 2 invariant count("P:strconv.") >= old(count("P:strconv.")) && (_i1 > 0 ==> count("P:strconv.") > old(count("P:strconv.")))
 
 //@ func collectNullableMessages(messages []*protogen.Message, contexts *[]*NullableContext)
 //@   modifies contexts
